@@ -354,19 +354,11 @@ def do_replay(pid, path):
     ex = Executor()
     c = R.CONTRACTS[doc["function"]]
     if doc.get("pyargs") and isinstance(doc["pyargs"], dict):
-        m, cls, fnode = X.find_function(c.qual)
-        names, _, vararg, _ = X.signature(fnode)
-        pyargs = doc["pyargs"]
-        args = list(pyargs.get(vararg, [])) if vararg else []
-        args = [tuple(x) if isinstance(x, list) else x for x in args]
-        kwargs = {n: pyargs[n] for n in names if n in pyargs}
-        outcome = RP.call_real(c.qual, args, kwargs)
-        if vararg: pyargs[vararg] = args
-        verdict, detail = RP.check_outcome(ex, c, pyargs, outcome)
-        print("native replay of %s%r -> %r : %s %s" % (c.qual, kwargs or args, outcome, verdict, detail))
-        if verdict == "violates":
+        info = RP.replay_pyargs(ex, c, doc["pyargs"])
+        print("native replay of %s on %r -> %s : %s %s" % (c.qual, doc["pyargs"], info["native"], info["verdict"], info["detail"]))
+        if info["verdict"] == "violates":
             print("VIOLATION property=%s replay=%s" % (pid, path)); return 1
-        return 0
+        if info["verdict"] in ("ok", "outside-precondition"): return 0
     # no native input: re-solve the recorded obligation on the current tree
     obs = ex.verify_function(c.qual)
     target = [o for o in obs if o.kind == doc["obligation"].split("#")[1]]
